@@ -92,6 +92,9 @@ func tagOf(v any) string {
 func (t *task) Start() {
 	if t.sc.quiet.Load() {
 		t.starts.Add(1)
+		if t.gated {
+			<-t.release
+		}
 		if t.panicV != nil {
 			panic(t.panicV)
 		}
@@ -768,6 +771,10 @@ func runPanicMarathon(rng *rand.Rand, total int) result {
 	fine := &task{sc: s}
 	accepted := 0
 	for k := 0; k < total; k++ {
+		if k%1000 == 999 && runtime.NumGoroutine() > 3000 {
+			s.note += fmt.Sprintf("; stopped after %d tasks: %d goroutines exist", k, runtime.NumGoroutine())
+			break // something multiplies goroutines: the census at the end of the scenario will show it
+		}
 		t := boom
 		if k%3 == 2 {
 			t = fine
@@ -789,6 +796,74 @@ func runPanicMarathon(rng *rand.Rand, total int) result {
 	s.buf().Emit(ev{E: "w.recovered"})
 	s.buf().Emit(ev{E: "burst.summary", G: accepted, B: started, T: 0, Pend: st.PendingTask, V: tagOf(st.LastPanic)})
 	s.status(90)
+	return s.finish(false)
+}
+
+// sharing after panics on foreign workers: lane 1's own worker is pinned, so everything pushed to lane 1 runs on the other
+// workers; several of those tasks panic there; afterwards lane 1's tasks must still be taken by idle workers.
+func runPanicShare(rng *rand.Rand, n int) result {
+	s := newScenario("panicshare", n, 1, context.Background(), nil)
+	s.tl.SetTimeout(2 * time.Second)
+	s.longTO = true
+	s.note = fmt.Sprintf("n=%d q=1: worker 1 pinned, %d panicking tasks of lane 1 run on foreign workers, then more tasks for lane 1", n, 2*n)
+	s.push(1, s.mkTask(0, true, nil), 0)
+	s.quiesce("pin")
+	for k := 0; k < 2*n; k++ {
+		s.push(1, s.mkTask(0, false, panicVals[k%len(panicVals)]), 0)
+		s.quiesce("live")
+	}
+	for k := 0; k < n+1; k++ {
+		s.push(1, s.mkTask(0, false, nil), 0)
+	}
+	s.quiesce("live")
+	s.status(90)
+	return s.finish(rng.Intn(2) == 0)
+}
+
+// burst-then-probe, many rounds without per-step events: a short burst on lane 1 lets the workers go idle in ever
+// different orders; then worker 2 is occupied by a long task and one more task is pushed to lane 2 - an idle worker must
+// take it at once.  Only the totals are recorded (accepted probes / probes started while the long task was still running).
+func runBurstProbe(rng *rand.Rand, rounds int) result {
+	s := newScenario("burstprobe", 2, 2, context.Background(), func(s *scenario) { s.quiet.Store(true) })
+	s.tl.SetTimeout(2 * time.Second)
+	s.note = fmt.Sprintf("n=2 q=2: %d rounds of (burst on lane 1, long task on lane 2, probe on lane 2)", rounds)
+	accepted, started := 0, 0
+	tiny := &task{sc: s}
+	for r := 0; r < rounds; r++ {
+		nb := 1 + rng.Intn(4)
+		for k := 0; k < nb; k++ {
+			s.tl.PushTask(tiny, 0)
+		}
+		long := &task{sc: s, gated: true, release: make(chan struct{})}
+		probe := &task{sc: s}
+		if s.tl.PushTask(long, 1) != nil {
+			close(long.release)
+			continue
+		}
+		for i := 0; long.starts.Load() == 0 && i < 20000; i++ { // the long task occupies a worker
+			runtime.Gosched()
+		}
+		if s.tl.PushTask(probe, 1) == nil {
+			accepted++
+			deadline := time.Now().Add(time.Second)
+			for probe.starts.Load() == 0 && time.Now().Before(deadline) {
+				runtime.Gosched()
+			}
+			if probe.starts.Load() > 0 {
+				started++
+			}
+		}
+		close(long.release)
+		for i := 0; s.tl.Status().PendingTask != 0 && i < 100000; i++ {
+			runtime.Gosched()
+		}
+		if accepted-started >= 3 {
+			break // three probes left waiting next to an idle worker are enough evidence; each further one costs a second
+		}
+	}
+	st := s.tl.Status()
+	s.quiet.Store(false)
+	s.buf().Emit(ev{E: "burst.summary", G: accepted, B: started, T: 0, Pend: st.PendingTask, V: tagOf(st.LastPanic)})
 	return s.finish(false)
 }
 
@@ -846,6 +921,7 @@ func main() {
 	npanics := flag.Int("panics", 6, "")
 	ntimeouts := flag.Int("timeouts", 4, "")
 	nlast := flag.Int("lastpanic", 10, "")
+	nprobe := flag.Int("burstprobe", 1500, "rounds of the burst-then-probe scenario")
 	npanicm := flag.Int("panicmarathon", 300000, "tasks in the panic marathon")
 	nburst := flag.Int("burst", 4, "")
 	burstPer := flag.Int("burstper", 60, "tasks per producer in a burst scenario")
@@ -895,6 +971,9 @@ func main() {
 		w.Put(runQuietBurst(rng, 4, i%3, 40**burstPer))
 		w.Put(runQuietBurst(rng, 1+i%2, i%2, 20**burstPer)) // the tightest bound: one or two lanes, little or no buffer
 	}
+	w.Put(runBurstProbe(rng, *nprobe))
+	w.Put(runPanicShare(rng, 2))
+	w.Put(runPanicShare(rng, 3))
 	w.Put(runMarathon(rng, 1+int(vio.Seed())%2))
 	w.Put(runPanicMarathon(rng, *npanicm))
 	for i := 0; i < *nlast; i++ {
